@@ -118,8 +118,14 @@ theorem encodeVars_iff {β : Nat → Bool} : ∀ {Vs : List EVar}, (∀ V ∈ Vs
     have ih := encodeVars_iff (β := β) (Vs := Vs) (fun W hW => hp W (List.mem_cons_of_mem _ hW))
       (fun W hW => hn W (List.mem_cons_of_mem _ hW))
     unfold encodeVars at ih ⊢
-    rw [List.flatMap_cons, cnfTrue_append_iff, ih,
-      exactlyOne_iff (hp V List.mem_cons_self) (hn V List.mem_cons_self)]
+    have hlits : V.lits.isEmpty = false := by
+      have : V.lb ∈ V.dom := EVar.mem_dom.2 ⟨Int.le_refl _, hn V List.mem_cons_self⟩
+      cases hd : V.dom with
+      | nil => rw [hd] at this; cases this
+      | cons x l => simp [EVar.lits, hd]
+    rw [List.flatMap_cons, cnfTrue_append_iff, ih, hlits]
+    simp only [Bool.false_eq_true, if_false]
+    rw [exactlyOne_iff (hp V List.mem_cons_self) (hn V List.mem_cons_self)]
     constructor
     · rintro ⟨⟨x, hx⟩, a, ha⟩; exact ⟨x :: a, hx, ha⟩
     · rintro ⟨a, ha⟩
